@@ -80,3 +80,27 @@ Theorem C09_schema_lost_update_refuted :
   exists t, In t (Schema.threads s) /\ In ((Schema.KF, 1), 0) (Schema.results t) /\ In ((Schema.KF, 3), 0) (Schema.results t).
 Proof. exact Schema.schema_lost_update_refuted. Qed.
 Print Assumptions C09_schema_lost_update_refuted.
+
+(* concurrent get-or-create of one bucket of the index kv store with PrepareFlush and Flush placed anywhere between the
+   callers' steps (events: caller i, PrepareFlush, Flush), every program and every schedule: all callers agree on a name,
+   different names have different ids, and what a caller was given is what a later lookup finds - in memory, in the
+   immutable part or in the files *)
+From LinDBV.C09 Require Flush FlushProofs.
+Theorem C09_flush_stable_injective (progs : list (list nat)) sched :
+  let s := Flush.run true true (Flush.init progs) sched in
+  (forall t1 t2 n1 v1 n2 v2, In t1 (Flush.threads s) -> In t2 (Flush.threads s) ->
+     In (n1, v1) (Flush.results t1) -> In (n2, v2) (Flush.results t2) -> (n1 = n2 <-> v1 = v2)) /\
+  (forall t n v, In t (Flush.threads s) -> In (n, v) (Flush.results t) -> Flush.lookup s n = Some v).
+Proof. exact (FlushProofs.flush_stable_injective progs sched). Qed.
+Print Assumptions C09_flush_stable_injective.
+
+(* the code before its repairs: createValue never looked into the files again (a complete flush between a caller's
+   lookup and its create), and a bucket read before a flush was put back into the purged cache *)
+Theorem C09_no_files_recheck_refuted :
+  exists progs sched, FlushProofs.two_ids (Flush.run false true (Flush.init progs) sched) = true.
+Proof. exact FlushProofs.no_files_recheck_refuted. Qed.
+Print Assumptions C09_no_files_recheck_refuted.
+Theorem C09_unguarded_cache_refuted :
+  exists progs sched, FlushProofs.two_ids (Flush.run true false (Flush.init progs) sched) = true.
+Proof. exact FlushProofs.unguarded_cache_refuted. Qed.
+Print Assumptions C09_unguarded_cache_refuted.
